@@ -4,8 +4,11 @@ import (
 	"encoding/binary"
 	"fmt"
 	"hash/crc32"
+	"os"
+	"path/filepath"
 	"runtime/metrics"
 	"strings"
+	"syscall"
 	"testing"
 
 	v2 "github.com/hydraide/hydraide/app/core/hydra/swamp/chronicler/v2"
@@ -95,6 +98,10 @@ func allocBytes() uint64 {
 }
 
 // C04 — corrupt storage files are detected, never misread, never crash the server.
+var c04journal *os.File
+
+const c04limitGiB = 8
+
 func TestC04(t *testing.T) {
 	quietLogs()
 	r := kit.Start("C04", "exploration")
@@ -123,6 +130,34 @@ func TestC04(t *testing.T) {
 			}
 		}
 		return out
+	}
+	// A forged count can make the code ask for tens of gigabytes in one call, which cannot be measured after the fact:
+	// each worker runs under an address-space limit and journals the call it is about to make; a worker that dies of
+	// memory exhaustion is reported as a failure of the journalled call.
+	jdir := os.Getenv("VERIF_C04_JOURNAL")
+	if ok := r.IsWorker(); !ok {
+		jdir, _ = os.MkdirTemp("/dev/shm", "verif-c04-journal-")
+		os.Setenv("VERIF_C04_JOURNAL", jdir)
+		defer os.RemoveAll(jdir)
+		r.WorkerCrashed = func(w int, out string) bool {
+			if !strings.Contains(out, "out of memory") && !strings.Contains(out, "cannot allocate memory") {
+				return false
+			}
+			b, _ := os.ReadFile(filepath.Join(jdir, fmt.Sprintf("w%d", w)))
+			f := strings.Split(strings.TrimRight(string(b), " \n"), "|")
+			if len(f) != 3 {
+				return false
+			}
+			r.Fail("mutant", fmt.Sprintf("%s:%s:process-dies-out-of-memory", f[0], f[1]), fmt.Sprintf("%s on %s: the process died of memory exhaustion under an address-space limit of %d GiB (the file is smaller than 1 KiB)", f[0], f[2], c04limitGiB), map[string]any{"call": f[0], "mutant": f[2], "worker_output_tail": out[max(0, len(out)-1500):]})
+			return true
+		}
+	} else if jdir != "" {
+		sh, _ := r.Shard()
+		c04journal, _ = os.Create(filepath.Join(jdir, fmt.Sprintf("w%d", sh)))
+		lim := syscall.Rlimit{Cur: c04limitGiB << 30, Max: c04limitGiB << 30}
+		if err := syscall.Setrlimit(syscall.RLIMIT_AS, &lim); err != nil {
+			t.Fatalf("setrlimit: %v", err)
+		}
 	}
 	r.Parallel(16, "TestC04", func() {
 		item := 0
@@ -255,6 +290,10 @@ func c04eval(r *kit.Run, s *c04seed, kind string, pos, val int, file []byte) {
 	budgetReads := int64(8 * (len(file)/16 + 16))
 	budgetAlloc := uint64(4<<20 + 64*len(file))
 	run := func(api string, f func() (map[string][]byte, error)) {
+		if c04journal != nil {
+			rec := fmt.Sprintf("%s|%s|%s of %s at %d val %d", api, opClass, kind, s.name, pos, val)
+			c04journal.WriteAt([]byte(fmt.Sprintf("%-200s\n", rec)), 0)
+		}
 		vos.Reads = 0
 		a0 := allocBytes()
 		var idx map[string][]byte
